@@ -76,6 +76,10 @@ IxH    == [fields |-> <<"h">>, name |-> "ix_h", cond |-> None]
 CkG    == [kind |-> "check", fields |-> <<>>, name |-> "ck_g", cond |-> "g"]
 UqFG   == [kind |-> "unique", fields |-> <<"f", "g">>, name |-> "uq_fg", cond |-> None]
 UqCond == [kind |-> "unique", fields |-> <<"f">>, name |-> "uq_cond", cond |-> "g"]
+(* the same NAMES with other definitions: a check on another column, the unique columns the
+   other way round *)
+CkH    == [kind |-> "check", fields |-> <<>>, name |-> "ck_g", cond |-> "h"]
+UqGF   == [kind |-> "unique", fields |-> <<"g", "f">>, name |-> "uq_fg", cond |-> None]
 Model(name, fields, ut) == [table |-> TableOf(name), fields |-> fields,
                             ut |-> ut, uta |-> TRUE, idx |-> <<>>, cons |-> <<>>]
 
@@ -123,6 +127,12 @@ Start(id) ==
                   EXCEPT !.cons = <<CkG, UqFG, UqCond>>],
          B |-> Model("B", [id |-> IdField,
                            f |-> Field("Int", EmptyDict)], <<>>)]
+    [] id = 11 ->         \* Meta.constraints as in 9, with a second integer column to check instead
+        [A |-> [Model("A", [id |-> IdField,
+                            f |-> Field("Char", D1("max_length", 10)),
+                            g |-> Field("Int", EmptyDict),
+                            h |-> Field("Int", D1("null", TRUE))], <<>>)
+                  EXCEPT !.cons = <<CkG, UqFG, UqCond>>]]
     [] id = 8 ->          \* A declares a many-to-many relation to B
         [A |-> Model("A", [id |-> IdField,
                            f |-> Field("Char", D1("max_length", 10)),
@@ -188,6 +198,9 @@ Alphabet ==
     [] AlphaId = 6 ->      \* plain column changes on two models (multi-table evolutions)
         UNION { { MAdd(m, "h", "Int", D1("null", TRUE), None),
                   MAdd(m, "h", "Char", D1("max_length", 10), "i"),
+                  \* a nullable column WITH an initial value: every existing row gets the value
+                  \* (no unique toggles in this alphabet: equal values in every row are fine)
+                  MAdd(m, "h", "Int", D1("null", TRUE), "j"),
                   MChg(m, "g", None, D1("null", FALSE), "i"),
                   MChg(m, "g", None, D1("null", TRUE), None),
                   MChg(m, "g", None, D1("db_index", TRUE), None),
@@ -229,6 +242,24 @@ Alphabet ==
           \* (g, f), not (f, g): a unique_together over the very columns of uq_fg would be a
           \* second, indistinguishable unique index
           MMetaUT("A", << <<"g", "f">> >>), MSQL }
+    [] AlphaId = 12 ->     \* constraints REDEFINED under the name they already have, alone and next to
+                           \* other changes of the same table
+        { MMetaCons("A", <<CkH, UqFG, UqCond>>), MMetaCons("A", <<CkG, UqGF, UqCond>>),
+          MMetaCons("A", <<CkH, UqGF>>), MMetaCons("A", <<CkG, UqFG, UqCond>>),
+          MMetaCons("A", <<CkG>>), MMetaCons("A", <<>>),
+          MChg("A", "f", None, D1("max_length", 20), None),
+          MAdd("A", "k", "Int", D1("null", TRUE), None),
+          MChg("A", "h", None, D1("db_index", TRUE), None), MSQL }
+    [] AlphaId = 11 ->     \* a referenced primary key / model is renamed, and the table that refers to it is
+                           \* rebuilt, gains another relation to it, or has the relation renamed (C11's
+                           \* database clause: every foreign key points at the renamed table / column)
+        { MRenF("B", "id", "k"), MRenM("B", "C"),
+          MDel("A", "g"), MChg("A", "g", None, D1("null", TRUE), None),
+          MChg("A", "g", None, D1("db_index", TRUE), None),
+          MAdd("A", "h", "FK", D2("null", TRUE, "related_model", "B"), None),
+          MAdd("A", "h", "FK", D2("null", TRUE, "related_model", "C"), None),
+          MAdd("A", "h", "Int", D1("null", TRUE), None),
+          MRenF("A", "f", "h"), MDel("B", "g"), MRenF("C", "id", "k") }
     [] AlphaId = 9 ->      \* the other column types of C01's quantifier, added / re-typed / made nullable / dropped
         { MAdd("A", "h", "BigInt", D1("null", TRUE), None),
           MAdd("A", "h", "PosInt", EmptyDict, "i"),
